@@ -21,5 +21,7 @@ func removeWhitespace(data string) (string, bool, error) {
 		return r
 	}, data)
 
-	return transformedData, changed, nil
+	// strings.Map also rewrites every invalid UTF-8 byte to U+FFFD, so the value can differ
+	// from the input although no white space was dropped.
+	return transformedData, changed || transformedData != data, nil
 }
